@@ -39,6 +39,7 @@ var goSrcFuncs = []string{
 	"Iter.moveToEnd", "Iter.calcNext", "Iter.Type", "Iter.Advance", "Iter.AdvanceInto", "Iter.AdvanceIter",
 	"Iter.PeekNext", "Iter.PeekNextTag",
 	"Iter.SetFloat", "Iter.SetInt", "Iter.SetUInt", "Iter.SetBool", "Iter.SetNull", "Iter.SetStringBytes",
+	"ParsedJson.stringByteAt", "Iter.StringBytes", "Iter.Bool", "Object.NextElementBytes",
 }
 
 type goBlock struct {
@@ -56,7 +57,43 @@ var goSrcBlocks = []goBlock{
 		locals: map[string]gty{"dst": tyPtr}, rtys: []gty{tyPtr, tyErr}},
 }
 
+// struct kinds whose values are flattened into variables `<name>.<field>`; every kind has a tape slice whose length
+// is the variable `<name>.lim` (`x.tape.Tape` for the cursor types, `x.Tape` for a ParsedJson).
+type structKind struct {
+	fields []string        // scalar fields, in the order of the Lean `fields` list (without lim)
+	ftypes map[string]gty
+}
+
+var structKinds = map[string]structKind{
+	"Iter":       {fields: []string{"off", "addNext", "cur", "t"}, ftypes: map[string]gty{"off": tyInt, "addNext": tyInt, "cur": tyU64, "t": tyU8}},
+	"Object":     {fields: []string{"off"}, ftypes: map[string]gty{"off": tyInt}},
+	"Array":      {fields: []string{"off"}, ftypes: map[string]gty{"off": tyInt}},
+	"ParsedJson": {fields: []string{}, ftypes: map[string]gty{}},
+}
+
+func kindFields(k string) string {
+	fs := append(append([]string{}, structKinds[k].fields...), "lim")
+	return leanStrList(fs)
+}
+
+// pointer-to-struct type expression → kind
+func ptrKind(e ast.Expr) (string, bool) {
+	st, ok := e.(*ast.StarExpr)
+	if !ok {
+		return "", false
+	}
+	id, ok := st.X.(*ast.Ident)
+	if !ok {
+		return "", false
+	}
+	_, ok = structKinds[id.Name]
+	return id.Name, ok
+}
+
 type gsTr struct {
+	kinds  map[string]string // struct-typed names (receiver, pointer parameters, locals) → kind
+	named  []string          // named results, in order
+	nameTy map[string]gty
 	p      *pkgInfo
 	fn     string
 	recv   string            // receiver name
@@ -190,9 +227,32 @@ func (t *gsTr) constType(name string) gty {
 }
 
 // isTape reports whether e is `<iter>.tape.Tape` and returns the iterator's name.
+// global reports whether e is the string buffer or the message of the (one) document the function works on.
+func (t *gsTr) global(e ast.Expr) (string, bool) {
+	x := nows(src(e))
+	for name, k := range t.kinds {
+		pre := name + ".tape."
+		if k == "ParsedJson" {
+			pre = name + "."
+		}
+		if x == pre+"Strings.B" {
+			return "Strings.B", true
+		}
+		if x == pre+"Message" {
+			return "Message", true
+		}
+	}
+	return "", false
+}
+
 func (t *gsTr) isTape(e ast.Expr) (string, bool) {
 	if base, ok := t.tapes[nows(src(e))]; ok {
 		return base, true
+	}
+	if s1, ok := e.(*ast.SelectorExpr); ok && s1.Sel.Name == "Tape" {
+		if id, ok := s1.X.(*ast.Ident); ok && t.kinds[id.Name] == "ParsedJson" {
+			return id.Name, true
+		}
 	}
 	s1, ok := e.(*ast.SelectorExpr)
 	if !ok || s1.Sel.Name != "Tape" {
@@ -203,7 +263,7 @@ func (t *gsTr) isTape(e ast.Expr) (string, bool) {
 		return "", false
 	}
 	id, ok := s2.X.(*ast.Ident)
-	if !ok || !t.iters[id.Name] {
+	if !ok || (!t.iters[id.Name] && t.kinds[id.Name] == "") {
 		return "", false
 	}
 	return id.Name, true
@@ -233,6 +293,9 @@ func (t *gsTr) expr(e ast.Expr, want gty) (string, gty) {
 			if want == tyPtr {
 				return "(.bool false /- nil -/)", tyPtr
 			}
+			if want == tyBytes {
+				return ".nilB", tyBytes
+			}
 			return "(.bool false /- nil -/)", tyErr
 		}
 		if ty, ok := t.locals[x.Name]; ok {
@@ -252,6 +315,16 @@ func (t *gsTr) expr(e ast.Expr, want gty) (string, gty) {
 		if ty, ok := t.frees[nows(src(e))]; ok {
 			return fmt.Sprintf("(.v %s)", strconv.Quote(nows(src(e)))), ty
 		}
+		if g, ok := t.global(e); ok {
+			return fmt.Sprintf("(.v %s)", strconv.Quote(g)), tyBytes
+		}
+		if id, ok := x.X.(*ast.Ident); ok && t.kinds[id.Name] != "" && !t.iters[id.Name] {
+			ty, ok := structKinds[t.kinds[id.Name]].ftypes[x.Sel.Name]
+			if !ok {
+				gsDie(e, "field")
+			}
+			return fmt.Sprintf("(.v %s)", strconv.Quote(id.Name+"."+x.Sel.Name)), ty
+		}
 		if id, ok := x.X.(*ast.Ident); ok && t.iters[id.Name] {
 			ty, ok := t.fields[x.Sel.Name]
 			if !ok || ty == tyUnk {
@@ -267,19 +340,23 @@ func (t *gsTr) expr(e ast.Expr, want gty) (string, gty) {
 		}
 		// a missing bound is printed as what Go defines it to be: 0 and len(operand)
 		lo, hi := "(.int 0)", "(.lenB "+b+")"
-		if x.Low != nil {
-			l, lty := t.expr(x.Low, tyInt)
-			if lty != tyInt {
-				gsDie(e, "slice bound type")
+		bound := func(be ast.Expr) string {
+			l, lty := t.expr(be, tyInt)
+			switch lty {
+			case tyInt:
+				return l
+			case tyU64:
+				// Go accepts any integer type as a bound; a uint64 ≥ 2^63 fails the bounds check either way
+				return "(.conv .int " + l + ")"
 			}
-			lo = l
+			gsDie(e, "slice bound type")
+			return ""
+		}
+		if x.Low != nil {
+			lo = bound(x.Low)
 		}
 		if x.High != nil {
-			h, hty := t.expr(x.High, tyInt)
-			if hty != tyInt {
-				gsDie(e, "slice bound type")
-			}
-			hi = h
+			hi = bound(x.High)
 		}
 		return fmt.Sprintf("(.sliceB %s %s %s)", b, lo, hi), tyBytes
 	case *ast.IndexExpr:
@@ -289,6 +366,15 @@ func (t *gsTr) expr(e ast.Expr, want gty) (string, gty) {
 				gsDie(e, "tape index type")
 			}
 			return fmt.Sprintf("(.tapeAt %s %s)", strconv.Quote(base), idx), tyU64
+		}
+		if _, isTbl := x.X.(*ast.Ident); !isTbl || t.locals[x.X.(*ast.Ident).Name] == tyBytes {
+			if a, aty := t.exprMaybe(x.X); aty == tyBytes {
+				idx, ity := t.expr(x.Index, tyInt)
+				if ity != tyInt && ity != tyU64 {
+					gsDie(e, "byte index type")
+				}
+				return fmt.Sprintf("(.idxB %s %s)", a, idx), tyU8
+			}
 		}
 		if id, ok := x.X.(*ast.Ident); ok && (id.Name == "TagToType" || id.Name == "tagOpenToClose") {
 			idx, ity := t.expr(x.Index, tyU8)
@@ -363,6 +449,24 @@ func (t *gsTr) expr(e ast.Expr, want gty) (string, gty) {
 		return t.binary(x, want)
 	}
 	gsDie(e, "expression")
+	return "", tyUnk
+}
+
+// exprMaybe translates e if it is a byte-slice valued variable or global; otherwise reports tyUnk without aborting
+func (t *gsTr) exprMaybe(e ast.Expr) (string, gty) {
+	switch x := e.(type) {
+	case *ast.Ident:
+		if t.locals[x.Name] == tyBytes {
+			return fmt.Sprintf("(.v %s)", strconv.Quote(x.Name)), tyBytes
+		}
+	case *ast.SelectorExpr:
+		if g, ok := t.global(e); ok {
+			return fmt.Sprintf("(.v %s)", strconv.Quote(g)), tyBytes
+		}
+		if ty, ok := t.frees[nows(src(e))]; ok && ty == tyBytes {
+			return fmt.Sprintf("(.v %s)", strconv.Quote(nows(src(e)))), tyBytes
+		}
+	}
 	return "", tyUnk
 }
 
@@ -486,6 +590,84 @@ func (t *gsTr) binary(x *ast.BinaryExpr, want gty) (string, gty) {
 	return fmt.Sprintf("(.bin %s %s %s)", name, a, b), at
 }
 
+func funcResultTypes(fd *ast.FuncDecl) []gty {
+	var rtys []gty
+	if fd.Type.Results != nil {
+		for _, f := range fd.Type.Results.List {
+			n := len(f.Names)
+			if n == 0 {
+				n = 1
+			}
+			for k := 0; k < n; k++ {
+				rtys = append(rtys, tyOfTypeExpr(f.Type))
+			}
+		}
+	}
+	return rtys
+}
+
+// methodCall recognises `x.M(args)` and `x.tape.M(args)` where M is a translated method.
+func (t *gsTr) methodCall(call *ast.CallExpr) (recv, callee string, ptrs, args []string, rtys []gty, ok bool) {
+	sel, isSel := call.Fun.(*ast.SelectorExpr)
+	if !isSel {
+		return
+	}
+	switch x := sel.X.(type) {
+	case *ast.Ident:
+		k := t.kinds[x.Name]
+		if k == "" {
+			return
+		}
+		recv, callee = x.Name, k+"."+sel.Sel.Name
+	case *ast.SelectorExpr:
+		id, isId := x.X.(*ast.Ident)
+		if !isId || x.Sel.Name != "tape" || t.kinds[id.Name] == "" || t.kinds[id.Name] == "ParsedJson" {
+			return
+		}
+		recv, callee = id.Name, "ParsedJson."+sel.Sel.Name
+	default:
+		return
+	}
+	known := false
+	for _, f := range goSrcFuncs {
+		if f == callee {
+			known = true
+		}
+	}
+	cfd, have := t.p.funcs[callee]
+	if !known || !have {
+		gsDie(call, "callee %s is not translated", callee)
+	}
+	k := 0
+	for _, f := range cfd.Type.Params.List {
+		for range f.Names {
+			if k >= len(call.Args) {
+				gsDie(call, "call arity")
+			}
+			a := call.Args[k]
+			k++
+			if kind, isPtr := ptrKind(f.Type); isPtr {
+				id, isId := a.(*ast.Ident)
+				if !isId || t.kinds[id.Name] != kind {
+					gsDie(a, "pointer argument must be a %s variable", kind)
+				}
+				ptrs = append(ptrs, id.Name)
+				continue
+			}
+			pty := tyOfTypeExpr(f.Type)
+			e, ty := t.expr(a, pty)
+			if ty != pty {
+				gsDie(a, "argument type")
+			}
+			args = append(args, e)
+		}
+	}
+	if k != len(call.Args) {
+		gsDie(call, "call arity")
+	}
+	return recv, callee, ptrs, args, funcResultTypes(cfd), true
+}
+
 // lvalue name of an assignable expression (local or iterator field)
 func (t *gsTr) lvalue(e ast.Expr) (string, gty) {
 	switch x := e.(type) {
@@ -496,6 +678,14 @@ func (t *gsTr) lvalue(e ast.Expr) (string, gty) {
 	case *ast.SelectorExpr:
 		if ty, ok := t.frees[nows(src(e))]; ok {
 			return nows(src(e)), ty
+		}
+		if g, ok := t.global(e); ok {
+			return g, tyBytes
+		}
+		if id, ok := x.X.(*ast.Ident); ok && t.kinds[id.Name] != "" && !t.iters[id.Name] {
+			if ty, ok := structKinds[t.kinds[id.Name]].ftypes[x.Sel.Name]; ok {
+				return id.Name + "." + x.Sel.Name, ty
+			}
 		}
 		if id, ok := x.X.(*ast.Ident); ok && t.iters[id.Name] {
 			if ty, ok := t.fields[x.Sel.Name]; ok && ty != tyUnk {
@@ -521,8 +711,50 @@ func (t *gsTr) block(list []ast.Stmt, ind string) string {
 func (t *gsTr) stmt(s ast.Stmt, ind string) string {
 	switch x := s.(type) {
 	case *ast.AssignStmt:
+		if len(x.Rhs) == 1 {
+			if call, isCall := x.Rhs[0].(*ast.CallExpr); isCall && (x.Tok == token.ASSIGN || x.Tok == token.DEFINE) {
+				if recv, callee, ptrs, args, rtys, ok := t.methodCall(call); ok {
+					if len(rtys) != len(x.Lhs) {
+						gsDie(s, "result arity")
+					}
+					var targets []string
+					for k, l := range x.Lhs {
+						if id, isId := l.(*ast.Ident); isId && id.Name == "_" {
+							targets = append(targets, "_")
+							continue
+						}
+						if id, isId := l.(*ast.Ident); isId && x.Tok == token.DEFINE {
+							if old, had := t.locals[id.Name]; had && old != rtys[k] {
+								gsDie(s, "variable redefined with another type")
+							}
+							t.locals[id.Name] = rtys[k]
+							targets = append(targets, id.Name)
+							continue
+						}
+						name, ty := t.lvalue(l)
+						if ty != rtys[k] {
+							gsDie(s, "assignment types differ")
+						}
+						targets = append(targets, name)
+					}
+					return fmt.Sprintf(".callAssign %s %s %s %s [%s]", leanStrList(targets), strconv.Quote(recv), strconv.Quote(callee), leanStrList(ptrs), strings.Join(args, ", "))
+				}
+			}
+		}
 		if len(x.Lhs) != 1 || len(x.Rhs) != 1 {
 			gsDie(s, "multiple assignment")
+		}
+		// x.tape = y.tape : the header of the same document; only the visible length is per copy
+		if x.Tok == token.ASSIGN {
+			if ls, ok := x.Lhs[0].(*ast.SelectorExpr); ok && ls.Sel.Name == "tape" {
+				if rs, ok := x.Rhs[0].(*ast.SelectorExpr); ok && rs.Sel.Name == "tape" {
+					li, ok1 := ls.X.(*ast.Ident)
+					ri, ok2 := rs.X.(*ast.Ident)
+					if ok1 && ok2 && t.kinds[li.Name] != "" && t.kinds[ri.Name] != "" {
+						return fmt.Sprintf(".assign %s (.lenTape %s)", strconv.Quote(li.Name+".lim"), strconv.Quote(ri.Name))
+					}
+				}
+			}
 		}
 		switch x.Tok {
 		case token.DEFINE:
@@ -740,6 +972,28 @@ func (t *gsTr) stmt(s ast.Stmt, ind string) string {
 	case *ast.ReturnStmt:
 		var es []string
 		fd := t.p.funcs[t.fn]
+		if len(x.Results) == 0 && len(t.named) > 0 {
+			for _, n := range t.named {
+				es = append(es, fmt.Sprintf("(.v %s)", strconv.Quote(n)))
+			}
+			return fmt.Sprintf(".ret [%s]", strings.Join(es, ", "))
+		}
+		if len(x.Results) == 1 {
+			if call, isCall := x.Results[0].(*ast.CallExpr); isCall {
+				if recv, callee, ptrs, args, rtys, ok := t.methodCall(call); ok {
+					mine := funcResultTypes(fd)
+					if len(mine) != len(rtys) {
+						gsDie(s, "returned call arity")
+					}
+					for k := range mine {
+						if mine[k] != rtys[k] {
+							gsDie(s, "returned call types")
+						}
+					}
+					return fmt.Sprintf(".retCall %s %s %s [%s]", strconv.Quote(recv), strconv.Quote(callee), leanStrList(ptrs), strings.Join(args, ", "))
+				}
+			}
+		}
 		var rtys []gty
 		if t.rtys != nil {
 			rtys = t.rtys
@@ -775,7 +1029,10 @@ func (t *gsTr) stmt(s ast.Stmt, ind string) string {
 			gsDie(s, "call shape")
 		}
 		id, ok := sel.X.(*ast.Ident)
-		if !ok || !t.iters[id.Name] {
+		if !ok || !t.iters[id.Name] || len(call.Args) > 0 && func() bool { _, isId := call.Args[0].(*ast.Ident); return isId && t.kinds[call.Args[0].(*ast.Ident).Name] != "" }() {
+			if recv, callee, ptrs, args, _, ok := t.methodCall(call); ok {
+				return fmt.Sprintf(".callAssign [] %s %s %s [%s]", strconv.Quote(recv), strconv.Quote(callee), leanStrList(ptrs), strings.Join(args, ", "))
+			}
 			gsDie(s, "call receiver")
 		}
 		callee := "Iter." + sel.Sel.Name
@@ -840,26 +1097,33 @@ func genGoSrc(p *pkgInfo, out string) {
 		if !ok {
 			die("gosrc: function %s not found", fn)
 		}
-		t := &gsTr{p: p, fn: fn, iters: map[string]bool{}, locals: map[string]gty{}}
+		t := &gsTr{p: p, fn: fn, iters: map[string]bool{}, locals: map[string]gty{}, kinds: map[string]string{}}
 		t.iterFieldTypes()
-		// the string buffer shared by every copy of the ParsedJson header (a pointer in Go): one variable
-		t.frees = map[string]gty{"i.tape.Strings.B": tyBytes}
+		t.frees = map[string]gty{}
 		if fd.Recv == nil || len(fd.Recv.List) != 1 || len(fd.Recv.List[0].Names) != 1 {
 			die("gosrc: %s: receiver", fn)
 		}
-		if _, ok := fd.Recv.List[0].Type.(*ast.StarExpr); !ok {
-			die("gosrc: %s: value receiver", fn)
+		rkind, isPtr := ptrKind(fd.Recv.List[0].Type)
+		if !isPtr {
+			die("gosrc: %s: receiver must be a pointer to Iter, Object, Array or ParsedJson", fn)
 		}
 		t.recv = fd.Recv.List[0].Names[0].Name
-		t.iters[t.recv] = true
+		t.kinds[t.recv] = rkind
+		if rkind == "Iter" {
+			t.iters[t.recv] = true
+		}
 		var params []string
+		var ptrParams []string
 		for _, f := range fd.Type.Params.List {
 			for _, nm := range f.Names {
-				if st, ok := f.Type.(*ast.StarExpr); ok {
-					if id, ok := st.X.(*ast.Ident); ok && id.Name == "Iter" {
+				if k, ok := ptrKind(f.Type); ok {
+					t.kinds[nm.Name] = k
+					if k == "Iter" {
 						t.iters[nm.Name] = true
-						continue // an iterator parameter's fields are part of the environment
 					}
+					// a pointer parameter's fields are part of the environment (aliased with the caller's)
+					ptrParams = append(ptrParams, fmt.Sprintf("(%s, %s)", strconv.Quote(nm.Name), kindFields(k)))
+					continue
 				}
 				ty := tyOfTypeExpr(f.Type)
 				if ty != tyInt && ty != tyU64 && ty != tyU8 && ty != tyBool && ty != tyBytes {
@@ -869,9 +1133,36 @@ func genGoSrc(p *pkgInfo, out string) {
 				params = append(params, nm.Name)
 			}
 		}
+		// named results are variables initialised to their zero value
+		var inits []string
+		if fd.Type.Results != nil {
+			for _, f := range fd.Type.Results.List {
+				for _, nm := range f.Names {
+					ty := tyOfTypeExpr(f.Type)
+					zero := map[gty]string{tyInt: "(.int 0)", tyU64: "(.u64 0)", tyU8: "(.u8 0)", tyBool: "(.bool false)", tyErr: "(.bool false /- nil -/)", tyBytes: ".nilB"}[ty]
+					if zero == "" {
+						die("gosrc: %s: named result %s has an unsupported type", fn, nm.Name)
+					}
+					t.named = append(t.named, nm.Name)
+					t.locals[nm.Name] = ty
+					inits = append(inits, fmt.Sprintf(".assign %s %s", strconv.Quote(nm.Name), zero))
+				}
+			}
+		}
+		body := t.block(fd.Body.List, "")
+		if len(inits) > 0 {
+			body = "[\n  " + strings.Join(inits, ",\n  ") + ",\n  " + strings.TrimPrefix(strings.TrimPrefix(body, "[\n"), "  ")
+		}
+		extra := ""
+		if rkind != "Iter" {
+			extra += ", fields := " + kindFields(rkind)
+		}
+		if len(ptrParams) > 0 && fn != "Iter.AdvanceIter" {
+			extra += ", ptrParams := [" + strings.Join(ptrParams, ", ") + "]"
+		}
 		pos := fset.Position(fd.Pos())
-		fmt.Fprintf(&b, "/-- `%s` — %s:%d -/\ndef %s : FunDef := { recv := %s, params := %s, body := %s }\n\n",
-			fn, filepath.Base(pos.Filename), pos.Line, leanDefName(fn), strconv.Quote(t.recv), leanStrList(params), t.block(fd.Body.List, ""))
+		fmt.Fprintf(&b, "/-- `%s` — %s:%d -/\ndef %s : FunDef := { recv := %s, params := %s, body := %s%s }\n\n",
+			fn, filepath.Base(pos.Filename), pos.Line, leanDefName(fn), strconv.Quote(t.recv), leanStrList(params), body, extra)
 	}
 	// blocks of larger functions: the statements from the first one starting with `from` to the end of the function,
 	// without those that mention one of `skip` (waits on goroutines that belong to the part modelled by contract)
